@@ -528,7 +528,7 @@ pub fn main(env: &Env) -> i32 {
     ];
     let seed = env.seed;
     let thorough = env.thorough;
-    let (n_batches, n, n_children, max_threads) = if thorough { (env.scaled(12), 1500u64, 64u64, 8u64) } else { (1, env.scaled(220), 8u64, 6u64) };
+    let (n_batches, n, n_children, max_threads) = if thorough { (env.scaled(12), 1500u64, 64u64, 8u64) } else { (1, env.scaled(220), 12u64, 6u64) };
     rep.rule = format!(
         "{} batch(es); per batch {} seeded-generated mappings (0..12 classes x 0..12 members) + 3 hand-written tie/duplicate/orphan shapes + one big generated mapping (> 8192 records) + all corpus files (incl. the 0.7 MB and 2.3 MB ones) + an equal-length sibling for every 6th mapping are serialised by {} separately started processes, each with its own hash seed, heap layout and processing order; \
          inside a process every mapping is written twice (heap perturbed in between) and then by 2..{} threads concurrently under the seeded baton (every sink call is a scheduling point, chunk cap drawn from {{inf,64,7}}); finally equal-length siblings are copied into one reused buffer and written back to back in seed-dependent order (address reuse). \
